@@ -15,32 +15,33 @@
 (*     closed form and the code's LeftShift64 chain, shifts with carry-in, *)
 (*     casts) is compared with the bit-level definition on the same        *)
 (*     value: for all pairs (pairs = "all"), for all a and every boundary  *)
-(*     value b (pairs = "wide"), or for all values of a with b = 0 plus    *)
-(*     all pairs of boundary values (pairs = "edge").                      *)
+(*     value b (pairs = "wide"), or for every step-th value of a (and the  *)
+(*     boundary values) with b = 0 plus all pairs of boundary values       *)
+(*     (pairs = "edge").                                                   *)
 (* A wrong full-adder cell, a carry that is not propagated, a shift that   *)
 (* keeps a bit it should drop ... makes `verdict` leave {"todo","ok"}.     *)
 (***************************************************************************)
 EXTENDS LimbModel, TLC
 
-CONSTANTS Configs,  \* set of records [L, K, pairs]
+CONSTANTS Configs,  \* set of records [L, K, pairs, step]
           SH        \* shifts are validated for n in 0..W+SH
 
 VARIABLES cf, a, b, verdict
 
 QuickConfigs ==
-  { [L |-> 0, K |-> 6, pairs |-> "all"],        \* BitVec = native, 6 bits: 4 096 pairs
-    [L |-> 3, K |-> 2, pairs |-> "wide"],       \* two limbs  (Uint128 shape)
-    [L |-> 2, K |-> 3, pairs |-> "wide"],
-    [L |-> 6, K |-> 1, pairs |-> "wide"],       \* one limb wider than a table nibble
-    [L |-> 2, K |-> 4, pairs |-> "edge"],       \* four limbs (Uint256 shape)
-    [L |-> 8, K |-> 1, pairs |-> "edge"] }      \* one byte
+  { [L |-> 0, K |-> 6, pairs |-> "all",  step |-> 1],     \* BitVec = native, 6 bits: 4 096 pairs
+    [L |-> 3, K |-> 2, pairs |-> "wide", step |-> 1],     \* two limbs  (Uint128 shape)
+    [L |-> 2, K |-> 3, pairs |-> "wide", step |-> 1],
+    [L |-> 6, K |-> 1, pairs |-> "wide", step |-> 1],     \* one limb wider than a table nibble
+    [L |-> 2, K |-> 4, pairs |-> "edge", step |-> 1],     \* four limbs (Uint256 shape)
+    [L |-> 8, K |-> 1, pairs |-> "edge", step |-> 1] }    \* one byte
 ThoroughConfigs ==
-  { [L |-> 0, K |-> 8, pairs |-> "all"],        \* BitVec = native, 8 bits: 65 536 pairs
-    [L |-> 4, K |-> 2, pairs |-> "all"],
-    [L |-> 2, K |-> 4, pairs |-> "all"],
-    [L |-> 8, K |-> 1, pairs |-> "all"],        \* the transport limb: one byte
-    [L |-> 4, K |-> 4, pairs |-> "edge"],       \* 16 bits: all values x all shifts, boundary pairs
-    [L |-> 8, K |-> 2, pairs |-> "edge"] }
+  { [L |-> 0, K |-> 8, pairs |-> "all",  step |-> 1],     \* BitVec = native, 8 bits: 65 536 pairs
+    [L |-> 4, K |-> 2, pairs |-> "wide", step |-> 1],
+    [L |-> 2, K |-> 4, pairs |-> "wide", step |-> 1],
+    [L |-> 8, K |-> 1, pairs |-> "wide", step |-> 1],     \* the transport limb: one byte
+    [L |-> 4, K |-> 4, pairs |-> "edge", step |-> 7],     \* 16 bits: every 7th value x all shifts, boundary pairs
+    [L |-> 8, K |-> 2, pairs |-> "edge", step |-> 7] }
 
 Width(c) == IF c.L = 0 THEN c.K ELSE c.L * c.K
 Edge(w) == LET m == P2(w) IN
@@ -163,7 +164,7 @@ Init ==
   /\ LET m == P2(Width(cf)) IN
        \/ cf.pairs = "all"  /\ a \in 0..(m - 1) /\ b \in 0..(m - 1)
        \/ cf.pairs = "wide" /\ a \in 0..(m - 1) /\ b \in Edge(Width(cf))
-       \/ cf.pairs = "edge" /\ a \in 0..(m - 1) /\ b = 0
+       \/ cf.pairs = "edge" /\ a \in { v \in 0..(m - 1) : v % cf.step = 0 \/ v \in Edge(Width(cf)) } /\ b = 0
        \/ cf.pairs = "edge" /\ a \in Edge(Width(cf)) /\ b \in Edge(Width(cf)) \ {0}
   /\ verdict = "todo"
 Next == verdict = "todo" /\ verdict' = Check(cf, a, b) /\ UNCHANGED <<cf, a, b>>
